@@ -41,4 +41,10 @@ def IsNanArgmin (xs : List Val) (i : Nat) : Prop :=
   ∃ v, xs[i]? = some (Val.num v) ∧ (∀ (j : Nat) (w : Rat), xs[j]? = some (Val.num w) → v ≤ w) ∧
     (∀ (j : Nat) (w : Rat), j < i → xs[j]? = some (Val.num w) → v < w)
 
+/-- A result used by the witnesses below: all fine, one RSE per class. -/
+def witnessRes : Res :=
+  { ofv := .num 0, minSucc := true, cause := "", sigdigs := .num 5, warnings := [],
+    rse := some [(.theta, .num (1/10)), (.omega, .num (1/10)), (.sigma, .num (1/10))],
+    grd := [(.theta, .num 1), (.omega, .nan), (.sigma, .num 1)], near := [] }
+
 end Pharmpy.C19
